@@ -72,6 +72,7 @@ def run(facts, rep, tier):
     rep.rule("R05.3", "all-zero code: never a value", "P")
     rep.rule("R05.4", "Q=0: Gillham decoding per C class equals Annex 10", "P")
     rep.rule("R05.5", "altitude written only by DF4/20 and TC5-18; both paths agree", "P")
+    rep.rule("R05.6", "every altitude-carrying frame applies its decoding to an existing row (a code without a value blanks it, never a stale value)", "P")
     out = k2_results(facts, tier)
     results = out["results"]
 
@@ -135,6 +136,23 @@ def run(facts, rep, tier):
                 if not ok:
                     rep.add(Finding("R05.3", "all-zero altitude code of DF%d yields a value" % r.df,
                                     "DF%d with an all-zero altitude code (context '%s') stores %r" % (r.df, r.ctx["label"], v), None))
+    # ---- R05.6: the update is unconditional: after the frame the row's altitude is the frame's decoding, never the old value
+    n6 = 0
+    for r in sel(results, "A"):
+        if "gillham" in r.ctx["tags"] or r.post_update is None:
+            continue
+        n6 += 1
+        v = r.post_update.fields.get("altitude")
+        from ..absint.query import ctl_other_deps, other_deps
+        stale = unchanged(r, "altitude") or any(isinstance(d, tuple) and d[:2] == ("pre", "altitude") for d in other_deps(v))
+        ok = not stale
+        if "alt-zero" in r.ctx["tags"]:
+            ok = ok and isinstance(v, EnumV) and v.only("None")
+        rep.oblige(ok, ("applies", r.ctx["label"]))
+        if not ok:
+            rep.add(Finding("R05.6", "DF%d altitude not applied to an existing row (%s path)" % (r.df, "U" if r.ctx.get("U") else "D"),
+                            "context '%s': after the frame the row's altitude may still be the previous value (%r)" % (r.ctx["label"], v), None))
+    rep.instances("R05.6", n6, floor=20)
     rep.instances("R05.1", n1, floor=20, what="altitude values (stores + created rows) in altitude-class contexts")
     rep.instances("R05.2", n2, floor=8)
     rep.instances("R05.3", n3, floor=3)
